@@ -9,10 +9,16 @@ import (
 	"github.com/flowmatters/openwater-core/sim"
 	"gonum.org/v1/hdf5"
 	"owverif.local/verif/mrun"
+	"owverif.local/verif/tables"
 )
 
 // Palette of node types: distinguishable, cheap semantics.
-var Palette = []string{"Input", "Sum", "FixedPartition", "RunoffCoefficient", "Muskingum"}
+// The last type has a table-valued ("dimensioned") parameter: its parameter rows in the file are laid out for the
+// longest table over ALL its nodes. It only appears in the dedicated sub-family (dimensionedFamily).
+var Palette = []string{"Input", "Sum", "FixedPartition", "RunoffCoefficient", "Muskingum", "RatingCurvePartition"}
+
+const nEnumTypes = 5 // types enumerated by the main family
+const dimType = 5
 
 const maxGen = 4
 
@@ -27,7 +33,8 @@ type glink struct {
 
 type graph struct {
 	G            int
-	Counts       [5][maxGen]int
+	Counts       [6][maxGen]int
+	TableLens    []int // dimensioned nodes: table length of row r is TableLens[r % len]
 	Links        []glink
 	T            int
 	StoredInputs bool   // non-Input types also come with stored /inputs
@@ -88,8 +95,48 @@ func (g *graph) params(t, row int) []float64 {
 		return []float64{0.3 + 0.1*float64(row)}
 	case "Muskingum":
 		return []float64{86400 * (1 + 0.25*float64(row)), 0.2, 86400}
+	case "RatingCurvePartition":
+		// [nPts, inputAmount knots..., proportion values...] with this node's own table length
+		switch g.tableLen(row) {
+		case 2:
+			return []float64{2, 0, 5000, 0.1 * float64(row+1), 1} // (knots cover every input value the graphs produce)
+		case 3:
+			return []float64{3, 0, 10, 5000, 1, 0.35, 0.05 * float64(row)}
+		}
+		return []float64{4, 0, 0.3, 7, 5000, 0, 0.1, 0.35 + 0.1*float64(row), 0.9}
 	}
 	return nil
+}
+
+func (g *graph) tableLen(row int) int {
+	if len(g.TableLens) == 0 {
+		return 3
+	}
+	return g.TableLens[row%len(g.TableLens)]
+}
+
+// types listed in the file: the five plain types always (also without nodes), the dimensioned one only when it has nodes
+func (g *graph) types() []int {
+	out := []int{0, 1, 2, 3, 4}
+	if g.total(dimType) > 0 {
+		out = append(out, dimType)
+	}
+	return out
+}
+
+// fileParams: a node's parameter column as stored in the file (tables padded to the longest table of the type)
+func (g *graph) fileParams(t, row int) []float64 {
+	v := g.params(t, row)
+	if t != dimType {
+		return v
+	}
+	maxN := 0
+	for r := 0; r < g.total(t); r++ {
+		if n := g.tableLen(r); n > maxN {
+			maxN = n
+		}
+	}
+	return tables.Repack(Palette[t], v, maxN)
 }
 
 func (g *graph) initStates(t, row int) []float64 {
@@ -118,13 +165,16 @@ func (g *graph) sortedLinks() []glink {
 // write stores the model-graph file through the fake library's back door.
 func (g *graph) write(fn string) {
 	hdf5.FakeRemove(fn)
-	names := append([]string{}, Palette...)
-	pos := []int{0, 1, 2, 3, 4}
-	if g.Reversed {
-		for i := range names {
-			names[i] = Palette[len(Palette)-1-i]
-			pos[len(Palette)-1-i] = i
+	ts := g.types()
+	names := make([]string, len(ts))
+	pos := make([]int, len(Palette))
+	for i, t := range ts {
+		j := i
+		if g.Reversed {
+			j = len(ts) - 1 - i
 		}
+		names[j] = Palette[t]
+		pos[t] = j
 	}
 	hdf5.FakePutStrings(fn, "/META/models", names, 32)
 	hdf5.FakePutGroup(fn, "/DIMENSIONS")
@@ -135,16 +185,20 @@ func (g *graph) write(fn string) {
 			uint32(l.Dst.Gen), uint32(pos[l.Dst.Typ]), uint32(g.row(l.Dst)), uint32(l.Dst.K), uint32(l.DstVar))
 	}
 	hdf5.FakePutDataset(fn, "/LINKS", []int{len(ls), 10}, links)
-	for t, name := range Palette {
+	for _, t := range g.types() {
+		name := Palette[t]
 		d := desc(t)
 		tot := g.total(t)
 		base := "/MODELS/" + name + "/"
 		hdf5.FakePutDataset(fn, base+"batches", []int{g.G}, g.batches(t))
 		np, ns, ni := len(d.Parameters), len(d.States), len(d.Inputs)
+		if t == dimType {
+			np = len(g.fileParams(t, 0))
+		}
 		params := make([]float64, np*tot)
 		states := make([]float64, tot*ns)
 		for row := 0; row < tot; row++ {
-			for p, v := range g.params(t, row) {
+			for p, v := range g.fileParams(t, row) {
 				params[p*tot+row] = v
 			}
 			for s, v := range g.initStates(t, row) {
